@@ -50,6 +50,25 @@ Definition Dense_Spec (st : @store A) (n_loc : nat) (spike_templates spike_ids c
         forall j ch, nth_error chans j = Some ch ->
           exists v, nth_error orow j = Some v /\ Cell_Spec crow drow ch v.
 
+(* ---------- functional form ---------- *)
+(* the value written last for channel ch in one sparse row (NumPy's fancy assignment, left to right) *)
+Fixpoint stored_last (crow : list Z) (drow : list A) (ch : Z) : option A :=
+  match crow, drow with
+  | c :: cr, d :: dr => match stored_last cr dr ch with
+                        | Some v => Some v
+                        | None => if c =? ch then Some d else None
+                        end
+  | _, _ => None
+  end.
+Definition dense_cell (crow : list Z) (drow : list A) (ch : Z) : A :=
+  match stored_last crow drow ch with Some v => v | None => zero end.
+Definition dense_row (crow : list Z) (drow : list A) (chans : list Z) : list A := map (dense_cell crow drow) chans.
+Fixpoint dense (data : list (list A)) (cols : list (list Z)) (chans : list Z) : list (list A) :=
+  match data, cols with
+  | d :: dr, c :: cr => dense_row c d chans :: dense dr cr chans
+  | _, _ => []
+  end.
+
 (* ---------- boolean checkers ---------- *)
 Variable aeqb : A -> A -> bool.
 
